@@ -3,7 +3,7 @@
    Proofs/Dgram_lemmas.v, followed by Print Assumptions.  Model: Model/Dgram.v (the code after
    the repairs F3, F4, F10, F16; `as_found` = the code before them).                          *)
 From Coq Require Import List NArith Ascii Bool.
-From SV Require Import Lib.Bytes Lib.DgramLib Model.Chan Model.Dgram Proofs.Dgram_lemmas Gen.Consts.
+From SV Require Import Lib.Bytes Lib.DgramLib Model.Chan Model.Dgram Proofs.Dgram_lemmas Proofs.DgramServer_lemmas Gen.Consts.
 Import ListNotations.
 Local Open Scope N_scope.
 
@@ -221,14 +221,97 @@ Proof.
 Qed.
 Print Assumptions c10_release.
 
-(* NOT PROVED (gap): the server loop as a whole.  The function-level theorems above cover every
-   DnsProxy code path (c10_target, c10_target_retry, c10_verbatim_reply never raise); what is missing is
-   the handler-table invariant threaded through runonce's fold (fold_steps), i.e. this statement: *)
-Definition c10_server_no_crash_full : Prop :=
+(* SERVER, the loop as a whole (server.main's `while mux.ok:` = sstep; whole runs = srun), for ALL event scripts:
+   any frames (DNS_REQ, UDP_OPEN/DATA/CLOSE, others, any bodies, 16-bit identifiers as on the wire), any ready
+   sets, any socket behaviour, any times.  Every reachable state satisfies the handler-table invariant `sinv`
+   (Proofs/DgramServer_lemmas.v): handlers have distinct identities; a dnshandlers entry still in `handlers` is
+   a DnsProxy of that identifier, an udphandlers entry a UdpProxy of that identifier; every open channel has a
+   registered, present, live UdpProxy.  (Not claimed, because false in the code: that every DnsProxy is
+   registered — a DNS_REQ re-using an identifier overwrites dnshandlers[id]; the older DnsProxy lives on in
+   `handlers`, is never timed out by the sweep and is retired only by its own reply: c10_server_alias_example.) *)
+Theorem c10_server_invariant :
+  forall cfg evs,
+    (forall e, In e evs -> forall f, In f (se_frames e) -> fst (fst (fst f)) <= 65535) ->
+    sinv (fst (fst (srun all_fixed cfg s_init evs))).
+Proof. exact server_invariant_reachable. Qed.
+Print Assumptions c10_server_invariant.
+
+(* the invariant is inductive: preserved by one whole iteration (frame dispatch, every handler visit of runonce,
+   both sweeps, removal of dead handlers) from ANY state satisfying it; an iteration that raises does so for a
+   reason that can be read off the event (step_cause) *)
+Theorem c10_server_step_invariant :
+  forall cfg s e,
+    sinv s -> Forall (fun f => fst (fst (fst f)) <= 65535) (se_frames e) ->
+    match sstep all_fixed cfg s e with
+    | Ok (s', _) => sinv s' /\ s_chan s' = track (s_chan s) (se_frames e)
+    | Fatal => True
+    | Crash x => step_cause (s_chan s) (only_dns s) e x
+    end.
+Proof.
+  intros cfg s e I H. pose proof (sstep_inv cfg s e I H) as R.
+  destruct (sstep all_fixed cfg s e) as [[s' o]| |x]; [|exact R|exact R].
+  destruct R as (A & B & _). split; [exact A|exact B].
+Qed.
+Print Assumptions c10_server_step_invariant.
+
+(* ALL scripts: the only exceptions the loop can raise are AssertionError, ValueError and OverflowError — never
+   KeyError (the look-ups dnshandlers/udphandlers[channel] are total), OSError, UnboundLocalError, struct.error —
+   and each has its reason in the script: XAssert = a DNS_REQ/UDP_OPEN on an identifier that is open, or (only
+   when UDP is in play) a recvfrom peer address text > 61000 bytes; XValue = an UDP_OPEN/UDP_DATA body that does
+   not parse; XOverflow = an UDP_DATA port above 65535 *)
+Theorem c10_server_crash_classified :
+  forall cfg evs x,
+    (forall e, In e evs -> forall f, In f (se_frames e) -> fst (fst (fst f)) <= 65535) ->
+    snd (srun all_fixed cfg s_init evs) = Crash x ->
+    (x = XAssert /\ (~ run_no_reopen [] evs \/
+                     (~ (forall e, In e evs -> forall f, In f (se_frames e) -> snd (fst (fst f)) = FDnsReq) /\
+                      ~ (forall e, In e evs -> forall it, In it (se_io e) -> io_ok it)))) \/
+    (x = XValue /\ ~ (forall e, In e evs -> forall f, In f (se_frames e) -> body_ok f)) \/
+    (x = XOverflow /\ ~ (forall e, In e evs -> forall f, In f (se_frames e) -> data_body_ok f)).
+Proof.
+  intros cfg evs x H E. destruct (server_crash_classified cfg evs x H E) as [[-> [A|[A B]]]|[[-> A]|[-> A]]].
+  - left. split; [reflexivity|left; exact A].
+  - left. split; [reflexivity|]. right. split; [|exact B]. intros D. apply A. split; [exact only_dns_init|exact D].
+  - right. left. split; [reflexivity|exact A].
+  - right. right. split; [reflexivity|exact A].
+Qed.
+Print Assumptions c10_server_crash_classified.
+
+(* scripts of a conforming peer and real sockets — no DNS_REQ/UDP_OPEN on an open identifier (the client's
+   allocator: C06), bodies as the client builds them, recvfrom peers of address size; DNS and UDP mixed in any
+   way — never raise *)
+Theorem c10_server_no_crash_conforming :
+  forall cfg evs,
+    (forall e, In e evs -> forall f, In f (se_frames e) -> fst (fst (fst f)) <= 65535) ->
+    run_no_reopen [] evs ->
+    (forall e, In e evs -> forall f, In f (se_frames e) -> body_ok f) ->
+    (forall e, In e evs -> forall it, In it (se_io e) -> io_ok it) ->
+    forall x, snd (srun all_fixed cfg s_init evs) <> Crash x.
+Proof. exact server_no_crash_conforming. Qed.
+Print Assumptions c10_server_no_crash_conforming.
+
+(* DNS-only scripts (the former gap): the whole server loop never raises, for every script — any number of
+   queries, identifiers re-used early or not, every resolver-socket behaviour, any times *)
+Theorem c10_server_no_crash_full :
   forall cfg evs,
     (forall e, In e evs -> forall f, In f (se_frames e) ->
        snd (fst (fst f)) = FDnsReq /\ fst (fst (fst f)) <= 65535) ->
     forall x, snd (srun all_fixed cfg s_init evs) <> Crash x.
+Proof. exact server_no_crash_dns. Qed.
+Print Assumptions c10_server_no_crash_full.
+
+(* non-vacuity of the classification: every reason has a script; the aliasing corner as the code behaves *)
+Example c10_server_causes_example :
+  snd (srun all_fixed w_scfg s_init w_reopen) = Crash XAssert /\
+  snd (srun all_fixed w_scfg s_init w_badopen) = Crash XValue /\
+  snd (srun all_fixed w_scfg s_init w_bigport) = Crash XOverflow /\
+  snd (srun all_fixed w_scfg s_init w_fatal_reopen) = Fatal /\
+  snd (srun all_fixed w_scfg s_init w_reopen_next_iteration) = Ok tt.
+Proof. exact witnesses_crash. Qed.
+Example c10_server_alias_example :
+  let s := fst (fst (srun all_fixed w_scfg s_init w_alias)) in
+  map fst (s_h s) = [0; 1] /\ s_dnsh s = [(7, 1)] /\ snd (srun all_fixed w_scfg s_init w_alias) = Ok tt.
+Proof. exact alias_state. Qed.
 
 (* ---- the code as found (before the repairs): refuted, witnesses replayed on the real code ---- *)
 Theorem c10_f3_refuted : exists cfg evs,
